@@ -2,6 +2,7 @@ package gedcom
 
 import (
 	"fmt"
+	"sync"
 	"time"
 )
 
@@ -11,12 +12,16 @@ type FamilyNode struct {
 	cachedHusband, cachedWife bool
 	husband                   *HusbandNode
 	wife                      *WifeNode
+
+	// cacheMutex guards the lazily filled husband and wife when they are read
+	// by several goroutines at once (see IndividualNodes.Compare).
+	cacheMutex sync.Mutex
 }
 
 func newFamilyNode(document *Document, pointer string, children ...Node) *FamilyNode {
 	return &FamilyNode{
 		newSimpleDocumentNode(document, TagFamily, "", pointer, children...),
-		false, false, nil, nil,
+		false, false, nil, nil, sync.Mutex{},
 	}
 }
 
@@ -25,6 +30,9 @@ func (node *FamilyNode) Husband() (husband *HusbandNode) {
 	if node == nil {
 		return nil
 	}
+
+	node.cacheMutex.Lock()
+	defer node.cacheMutex.Unlock()
 
 	if node.cachedHusband {
 		return node.husband
@@ -49,6 +57,9 @@ func (node *FamilyNode) Wife() (wife *WifeNode) {
 	if node == nil {
 		return nil
 	}
+
+	node.cacheMutex.Lock()
+	defer node.cacheMutex.Unlock()
 
 	if node.cachedWife {
 		return node.wife
